@@ -252,6 +252,42 @@ def _nodes_by_name(nodes):
     return d
 
 
+class _Stop(Exception):
+    """enough failing obligations on this path (every failure is replayed in a process of its own)"""
+
+
+class _Prover:
+    """env.prove, but a label that already failed on this path is not stated again and the path ends after
+    3 distinct failing obligations"""
+
+    def __init__(self, env):
+        self.env = env
+        self.failed = set()
+
+    def __call__(self, label, cond, detail=None):
+        if label in self.failed:
+            return False
+        ok = self.env.prove(label, cond, detail=detail)
+        if not ok:
+            self.failed.add(label)
+            if len(self.failed) >= 3:
+                raise _Stop()
+        return ok
+
+
+def _bounded(h):
+    def harness(env):
+        p = env.params
+        if "multi" in p:      # several small shapes served by one job (a job costs a process start)
+            p = p["multi"][env.choice("shape", list(range(len(p["multi"]))))]
+        try:
+            h(env, _Prover(env), p)
+        except _Stop:
+            pass
+    harness.__name__ = h.__name__
+    return harness
+
+
 def _import(env, modname):
     import importlib
     return env.call(importlib.import_module, modname)
@@ -259,23 +295,22 @@ def _import(env, modname):
 
 # ------------------------------------------------------------------ C16: constraints hyper-graph
 
-def h_hypergraph(env):
-    p = env.params
+def h_hypergraph(env, prove, p):
     m = _import(env, "pydcop.computations_graph.constraints_hypergraph")
     if isinstance(m, Raised):
-        env.prove("hypergraph.module-imports", False, detail=lambda: m.tb)
+        prove("hypergraph.module-imports", False, detail=lambda: m.tb)
         return
     scopes = pick_scopes(env, p)
     names, variables, cons, cscope = build_problem(env, p, scopes)
     via, g = call_builder(env, p, m, variables, cons)
     info = lambda: dict(scopes=cscope, via=via, variables=[v.name for v in variables])  # noqa
     if isinstance(g, Raised):
-        env.prove("hypergraph.build-does-not-raise", False, detail=lambda: (info(), g.tb))
+        prove("hypergraph.build-does-not-raise", False, detail=lambda: (info(), g.tb))
         return
     env.cover("post")
     cons_of, nbrs_of = model(names, cscope)
     nodes = list(g.nodes)
-    env.prove("hypergraph.one-node-per-variable", sorted(nd.name for nd in nodes) == sorted(names),
+    prove("hypergraph.one-node-per-variable", sorted(nd.name for nd in nodes) == sorted(names),
               detail=lambda: (info(), [nd.name for nd in nodes]))
     byname = _nodes_by_name(nodes)
     var_by_name = {v.name: v for v in variables}
@@ -283,57 +318,56 @@ def h_hypergraph(env):
         if len(byname.get(nm, [])) != 1:
             continue
         nd = byname[nm][0]
-        env.prove("hypergraph.node-holds-its-variable", nd.variable == var_by_name[nm] and nd.variable.name == nm,
+        prove("hypergraph.node-holds-its-variable", nd.variable == var_by_name[nm] and nd.variable.name == nm,
                   detail=lambda: (info(), nm, nd.variable))
         got = [c.name for c in nd.constraints]
-        env.prove("hypergraph.node-lists-exactly-the-constraints-containing-its-variable", set(got) == cons_of[nm],
+        prove("hypergraph.node-lists-exactly-the-constraints-containing-its-variable", set(got) == cons_of[nm],
                   detail=lambda: (info(), nm, got, sorted(cons_of[nm])))
-        env.prove("hypergraph.node-lists-each-constraint-once", len(got) == len(set(got)), detail=lambda: (info(), nm, got))
+        prove("hypergraph.node-lists-each-constraint-once", len(got) == len(set(got)), detail=lambda: (info(), nm, got))
         objs_ok = all(any(c is k for k in cons) for c in nd.constraints)
-        env.prove("hypergraph.node-constraints-are-the-dcop-constraints", objs_ok, detail=lambda: (info(), nm, got))
+        prove("hypergraph.node-constraints-are-the-dcop-constraints", objs_ok, detail=lambda: (info(), nm, got))
         nb = list(nd.neighbors)
-        env.prove("hypergraph.neighbours-equal-shares-a-constraint", set(nb) == nbrs_of[nm],
+        prove("hypergraph.neighbours-equal-shares-a-constraint", set(nb) == nbrs_of[nm],
                   detail=lambda: (info(), nm, sorted(nb), sorted(nbrs_of[nm])))
-        env.prove("hypergraph.neighbours-listed-once-and-not-self", len(nb) == len(set(nb)) and nm not in nb,
+        prove("hypergraph.neighbours-listed-once-and-not-self", len(nb) == len(set(nb)) and nm not in nb,
                   detail=lambda: (info(), nm, nb))
-        env.prove("hypergraph.graph-neighbors-api-agrees-with-node", set(g.neighbors(nm)) == set(nb),
+        prove("hypergraph.graph-neighbors-api-agrees-with-node", set(g.neighbors(nm)) == set(nb),
                   detail=lambda: (info(), nm, list(g.neighbors(nm)), nb))
         # the hyper-edges at a node are its constraints: same names, same scopes
         lk = sorted((getattr(l, "name", None), tuple(sorted(l.nodes))) for l in nd.links)
         exp = sorted((c, tuple(sorted(cscope[c]))) for c in cons_of[nm])
-        env.prove("hypergraph.node-links-are-its-constraints-with-their-scopes", lk == exp, detail=lambda: (info(), nm, lk, exp))
+        prove("hypergraph.node-links-are-its-constraints-with-their-scopes", lk == exp, detail=lambda: (info(), nm, lk, exp))
     # symmetry, stated on the graph's own data
     for a in names:
         for b in names:
             if a < b and len(byname.get(a, [])) == 1 and len(byname.get(b, [])) == 1:
-                env.prove("hypergraph.neighbourhood-is-symmetric",
+                prove("hypergraph.neighbourhood-is-symmetric",
                           (b in byname[a][0].neighbors) == (a in byname[b][0].neighbors),
                           detail=lambda: (info(), a, b))
     gl = sorted((getattr(l, "name", None), tuple(sorted(l.nodes))) for l in g.links)
     exp_gl = sorted((c, tuple(sorted(s))) for c, s in cscope.items())
-    env.prove("hypergraph.graph-links-are-the-constraints", gl == exp_gl, detail=lambda: (info(), gl, exp_gl))
+    prove("hypergraph.graph-links-are-the-constraints", gl == exp_gl, detail=lambda: (info(), gl, exp_gl))
 
 
 # ------------------------------------------------------------------ C16: factor graph
 
-def h_factor_graph(env):
-    p = env.params
+def h_factor_graph(env, prove, p):
     m = _import(env, "pydcop.computations_graph.factor_graph")
     if isinstance(m, Raised):
-        env.prove("factorgraph.module-imports", False, detail=lambda: m.tb)
+        prove("factorgraph.module-imports", False, detail=lambda: m.tb)
         return
     scopes = pick_scopes(env, p)
     names, variables, cons, cscope = build_problem(env, p, scopes)
     via, g = call_builder(env, p, m, variables, cons)
     info = lambda: dict(scopes=cscope, via=via, variables=[v.name for v in variables])  # noqa
     if isinstance(g, Raised):
-        env.prove("factorgraph.build-does-not-raise", False, detail=lambda: (info(), g.tb))
+        prove("factorgraph.build-does-not-raise", False, detail=lambda: (info(), g.tb))
         return
     env.cover("post")
     cons_of, _ = model(names, cscope)
     nodes = list(g.nodes)
     cnames = list(cscope)
-    env.prove("factorgraph.one-node-per-variable-and-per-constraint",
+    prove("factorgraph.one-node-per-variable-and-per-constraint",
               sorted(nd.name for nd in nodes) == sorted(names + cnames), detail=lambda: (info(), [nd.name for nd in nodes]))
     byname = _nodes_by_name(nodes)
     var_by_name = {v.name: v for v in variables}
@@ -347,36 +381,36 @@ def h_factor_graph(env):
         if len(byname.get(nm, [])) != 1:
             continue
         nd = byname[nm][0]
-        env.prove("factorgraph.variable-node-is-a-variable-node-holding-its-variable",
+        prove("factorgraph.variable-node-is-a-variable-node-holding-its-variable",
                   isinstance(nd, m.VariableComputationNode) and nd.variable == var_by_name[nm] and nd.variable.name == nm,
                   detail=lambda: (info(), nm, nd))
         nb = list(nd.neighbors)
-        env.prove("factorgraph.variable-linked-to-f-iff-in-scope-of-f", set(nb) == cons_of[nm],
+        prove("factorgraph.variable-linked-to-f-iff-in-scope-of-f", set(nb) == cons_of[nm],
                   detail=lambda: (info(), nm, sorted(nb), sorted(cons_of[nm])))
-        env.prove("factorgraph.bipartite-variable-neighbours-are-factors", all(x in cscope for x in nb), detail=lambda: (info(), nm, nb))
-        env.prove("factorgraph.neighbours-listed-once", len(nb) == len(set(nb)), detail=lambda: (info(), nm, nb))
+        prove("factorgraph.bipartite-variable-neighbours-are-factors", all(x in cscope for x in nb), detail=lambda: (info(), nm, nb))
+        prove("factorgraph.neighbours-listed-once", len(nb) == len(set(nb)), detail=lambda: (info(), nm, nb))
         got = pairs(nd.links)
         exp = sorted((c, nm) for c in cons_of[nm])
-        env.prove("factorgraph.variable-node-links-are-its-factor-variable-pairs", got == exp, detail=lambda: (info(), nm, got, exp))
-        env.prove("factorgraph.graph-neighbors-api-agrees-with-node", set(g.neighbors(nm)) == set(nb), detail=lambda: (info(), nm))
+        prove("factorgraph.variable-node-links-are-its-factor-variable-pairs", got == exp, detail=lambda: (info(), nm, got, exp))
+        prove("factorgraph.graph-neighbors-api-agrees-with-node", set(g.neighbors(nm)) == set(nb), detail=lambda: (info(), nm))
     for cn in cnames:
         if len(byname.get(cn, [])) != 1:
             continue
         nd = byname[cn][0]
-        env.prove("factorgraph.factor-node-is-a-factor-node-holding-its-constraint",
+        prove("factorgraph.factor-node-is-a-factor-node-holding-its-constraint",
                   isinstance(nd, m.FactorComputationNode) and nd.factor is con_by_name[cn],
                   detail=lambda: (info(), cn, nd))
         nb = list(nd.neighbors)
-        env.prove("factorgraph.factor-linked-to-x-iff-x-in-its-scope", set(nb) == set(cscope[cn]),
+        prove("factorgraph.factor-linked-to-x-iff-x-in-its-scope", set(nb) == set(cscope[cn]),
                   detail=lambda: (info(), cn, sorted(nb), sorted(cscope[cn])))
-        env.prove("factorgraph.bipartite-factor-neighbours-are-variables", all(x in var_by_name for x in nb), detail=lambda: (info(), cn, nb))
-        env.prove("factorgraph.neighbours-listed-once", len(nb) == len(set(nb)), detail=lambda: (info(), cn, nb))
+        prove("factorgraph.bipartite-factor-neighbours-are-variables", all(x in var_by_name for x in nb), detail=lambda: (info(), cn, nb))
+        prove("factorgraph.neighbours-listed-once", len(nb) == len(set(nb)), detail=lambda: (info(), cn, nb))
         got = pairs(nd.links)
         exp = sorted((cn, v) for v in cscope[cn])
-        env.prove("factorgraph.factor-node-links-are-its-factor-variable-pairs", got == exp, detail=lambda: (info(), cn, got, exp))
+        prove("factorgraph.factor-node-links-are-its-factor-variable-pairs", got == exp, detail=lambda: (info(), cn, got, exp))
     gl = pairs(g.links)
-    env.prove("factorgraph.graph-links-x-f-iff-x-in-scope-of-f", gl == sorted(exp_links), detail=lambda: (info(), gl, sorted(exp_links)))
-    env.prove("factorgraph.every-link-joins-one-variable-and-one-factor",
+    prove("factorgraph.graph-links-x-f-iff-x-in-scope-of-f", gl == sorted(exp_links), detail=lambda: (info(), gl, sorted(exp_links)))
+    prove("factorgraph.every-link-joins-one-variable-and-one-factor",
               all(f in cscope and v in var_by_name and set(l.nodes) == {f, v}
                   for l in g.links for f, v in [(getattr(l, "factor_node", None), getattr(l, "variable_node", None))]),
               detail=lambda: (info(), list(g.links)))
@@ -384,22 +418,21 @@ def h_factor_graph(env):
 
 # ------------------------------------------------------------------ C16: ordered graph
 
-def h_ordered_graph(env):
-    p = env.params
+def h_ordered_graph(env, prove, p):
     m = _import(env, "pydcop.computations_graph.ordered_graph")
     if isinstance(m, Raised):
-        env.prove("orderedgraph.module-imports", False, detail=lambda: m.tb)
+        prove("orderedgraph.module-imports", False, detail=lambda: m.tb)
         return
     scopes = pick_scopes(env, p)
     names, variables, cons, cscope = build_problem(env, p, scopes)
     via, g = call_builder(env, p, m, variables, cons)
     info = lambda: dict(scopes=cscope, via=via, variables=[v.name for v in variables])  # noqa
     if isinstance(g, Raised):
-        env.prove("orderedgraph.build-does-not-raise", False, detail=lambda: (info(), g.tb))
+        prove("orderedgraph.build-does-not-raise", False, detail=lambda: (info(), g.tb))
         return
     env.cover("post")
     nodes = list(g.nodes)
-    env.prove("orderedgraph.one-node-per-variable", sorted(nd.name for nd in nodes) == sorted(names),
+    prove("orderedgraph.one-node-per-variable", sorted(nd.name for nd in nodes) == sorted(names),
               detail=lambda: (info(), [nd.name for nd in nodes]))
     byname = _nodes_by_name(nodes)
     if any(len(byname.get(nm, [])) != 1 for nm in names):
@@ -412,21 +445,21 @@ def h_ordered_graph(env):
         exp_prev = lex[i - 1] if i > 0 else None
         nl = [l for l in nd.links if l.type == "next"]
         pl = [l for l in nd.links if l.type == "previous"]
-        env.prove("orderedgraph.exactly-one-next-link-except-last-in-lexical-order", len(nl) == (1 if exp_next else 0),
+        prove("orderedgraph.exactly-one-next-link-except-last-in-lexical-order", len(nl) == (1 if exp_next else 0),
                   detail=lambda: (info(), nm, nl))
-        env.prove("orderedgraph.exactly-one-previous-link-except-first-in-lexical-order", len(pl) == (1 if exp_prev else 0),
+        prove("orderedgraph.exactly-one-previous-link-except-first-in-lexical-order", len(pl) == (1 if exp_prev else 0),
                   detail=lambda: (info(), nm, pl))
-        env.prove("orderedgraph.order-links-start-at-their-node", all(l.source == nm for l in nl + pl), detail=lambda: (info(), nm, nl, pl))
+        prove("orderedgraph.order-links-start-at-their-node", all(l.source == nm for l in nl + pl), detail=lambda: (info(), nm, nl, pl))
         gn, gp = env.call(nd.get_next), env.call(nd.get_previous)
         nxt[nm], prv[nm] = gn, gp
-        env.prove("orderedgraph.next-is-lexical-successor", (not isinstance(gn, Raised)) and gn == exp_next,
+        prove("orderedgraph.next-is-lexical-successor", (not isinstance(gn, Raised)) and gn == exp_next,
                   detail=lambda: (info(), nm, gn, exp_next))
-        env.prove("orderedgraph.previous-is-lexical-predecessor", (not isinstance(gp, Raised)) and gp == exp_prev,
+        prove("orderedgraph.previous-is-lexical-predecessor", (not isinstance(gp, Raised)) and gp == exp_prev,
                   detail=lambda: (info(), nm, gp, exp_prev))
     # consistency, stated on the graph's own data: next(a) == b  <=>  previous(b) == a
     for a in names:
         for b in names:
-            env.prove("orderedgraph.next-and-previous-are-mutually-consistent", (nxt[a] == b) == (prv[b] == a),
+            prove("orderedgraph.next-and-previous-are-mutually-consistent", (nxt[a] == b) == (prv[b] == a),
                       detail=lambda: (info(), a, b, nxt, prv))
     # the chain visits every variable exactly once
     starts = [nm for nm in names if prv[nm] is None]
@@ -435,16 +468,15 @@ def h_ordered_graph(env):
     while cur is not None and cur in byname and cur not in seen:
         seen.append(cur)
         cur = nxt.get(cur)
-    env.prove("orderedgraph.single-chain-through-all-variables", len(starts) == 1 and seen == lex, detail=lambda: (info(), starts, seen))
+    prove("orderedgraph.single-chain-through-all-variables", len(starts) == 1 and seen == lex, detail=lambda: (info(), starts, seen))
 
 
 # ------------------------------------------------------------------ C17: pseudo-tree
 
-def h_pseudotree(env):
-    p = env.params
+def h_pseudotree(env, prove, p):
     m = _import(env, "pydcop.computations_graph.pseudotree")
     if isinstance(m, Raised):
-        env.prove("pseudotree.module-imports", False, detail=lambda: m.tb)
+        prove("pseudotree.module-imports", False, detail=lambda: m.tb)
         return
     scopes = pick_scopes(env, p)
     names, variables, cons, cscope = build_problem(env, p, scopes)
@@ -458,16 +490,16 @@ def h_pseudotree(env):
         lab = "pseudotree.construction-never-raises"
         if p.get("family") == "chain" and p["n"] >= 100:
             lab = "pseudotree.construction-never-raises-on-long-chains"
-        env.prove(lab, False, detail=lambda: (info(), repr(g.exc)[:200], g.tb[-1500:]))
+        prove(lab, False, detail=lambda: (info(), repr(g.exc)[:200], g.tb[-1500:]))
         return
     env.cover("post")
     if p.get("family") == "chain" and p["n"] >= 100:
-        env.prove("pseudotree.construction-never-raises-on-long-chains", True)
+        prove("pseudotree.construction-never-raises-on-long-chains", True)
     else:
-        env.prove("pseudotree.construction-never-raises", True)
+        prove("pseudotree.construction-never-raises", True)
     cons_of, nbrs_of = model(names, cscope)
     nodes = list(g.nodes)
-    env.prove("pseudotree.one-node-per-variable", sorted(nd.name for nd in nodes) == sorted(names),
+    prove("pseudotree.one-node-per-variable", sorted(nd.name for nd in nodes) == sorted(names),
               detail=lambda: (info(), [nd.name for nd in nodes][:50]))
     byname = _nodes_by_name(nodes)
     if any(len(byname.get(nm, [])) != 1 for nm in names) or len(byname) != len(names):
@@ -477,45 +509,45 @@ def h_pseudotree(env):
     TYPES = ("parent", "children", "pseudo_parent", "pseudo_children")
     for nm in names:
         nd = byname[nm][0]
-        env.prove("pseudotree.node-holds-its-variable", nd.variable == var_by_name[nm] and nd.variable.name == nm, detail=lambda: (info(), nm))
+        prove("pseudotree.node-holds-its-variable", nd.variable == var_by_name[nm] and nd.variable.name == nm, detail=lambda: (info(), nm))
         rel = env.call(m.get_dfs_relations, nd)
         if isinstance(rel, Raised):
-            env.prove("pseudotree.get_dfs_relations-does-not-raise", False, detail=lambda: (info(), nm, rel.tb))
+            prove("pseudotree.get_dfs_relations-does-not-raise", False, detail=lambda: (info(), nm, rel.tb))
             return
         parent[nm], pps[nm], children[nm], pcs[nm] = rel[0], list(rel[1]), list(rel[2]), list(rel[3])
         links = list(nd.links)
-        env.prove("pseudotree.links-start-at-their-node-end-at-another-node-and-are-typed",
+        prove("pseudotree.links-start-at-their-node-end-at-another-node-and-are-typed",
                   all(l.type in TYPES and l.source == nm and l.target in byname and l.target != nm for l in links),
                   detail=lambda: (info(), nm, links))
-        env.prove("pseudotree.at-most-one-parent-link", sum(1 for l in links if l.type == "parent") <= 1, detail=lambda: (info(), nm, links))
+        prove("pseudotree.at-most-one-parent-link", sum(1 for l in links if l.type == "parent") <= 1, detail=lambda: (info(), nm, links))
         # get_dfs_relations and the links tell the same story
         by_type = {t: sorted(l.target for l in links if l.type == t) for t in TYPES}
-        env.prove("pseudotree.get_dfs_relations-agrees-with-links",
+        prove("pseudotree.get_dfs_relations-agrees-with-links",
                   by_type["parent"] == ([parent[nm]] if parent[nm] is not None else [])
                   and by_type["children"] == sorted(children[nm]) and by_type["pseudo_parent"] == sorted(pps[nm])
                   and by_type["pseudo_children"] == sorted(pcs[nm]), detail=lambda: (info(), nm, by_type, rel))
         for lst, what in ((children[nm], "children"), (pps[nm], "pseudo-parents"), (pcs[nm], "pseudo-children")):
-            env.prove("pseudotree.no-node-listed-twice-among-%s" % what, len(lst) == len(set(lst)), detail=lambda: (info(), nm, lst))
+            prove("pseudotree.no-node-listed-twice-among-%s" % what, len(lst) == len(set(lst)), detail=lambda: (info(), nm, lst))
         got = [c.name for c in nd.constraints]
-        env.prove("pseudotree.node-carries-exactly-the-constraints-on-its-variable", set(got) == cons_of[nm],
+        prove("pseudotree.node-carries-exactly-the-constraints-on-its-variable", set(got) == cons_of[nm],
                   detail=lambda: (info(), nm, got, sorted(cons_of[nm])))
-        env.prove("pseudotree.node-carries-each-constraint-once", len(got) == len(set(got)), detail=lambda: (info(), nm, got))
+        prove("pseudotree.node-carries-each-constraint-once", len(got) == len(set(got)), detail=lambda: (info(), nm, got))
     # mutual consistency of the four link kinds
     for nm in names:
         if parent[nm] is not None:
-            env.prove("pseudotree.parent-lists-node-among-its-children", nm in children.get(parent[nm], ()),
+            prove("pseudotree.parent-lists-node-among-its-children", nm in children.get(parent[nm], ()),
                       detail=lambda: (info(), nm, parent[nm], children.get(parent[nm])))
         for c in children[nm]:
-            env.prove("pseudotree.child-has-node-as-parent", parent.get(c) == nm, detail=lambda: (info(), nm, c, parent.get(c)))
+            prove("pseudotree.child-has-node-as-parent", parent.get(c) == nm, detail=lambda: (info(), nm, c, parent.get(c)))
         for a in pps[nm]:
-            env.prove("pseudotree.pseudo-parent-lists-node-among-its-pseudo-children", nm in pcs.get(a, ()),
+            prove("pseudotree.pseudo-parent-lists-node-among-its-pseudo-children", nm in pcs.get(a, ()),
                       detail=lambda: (info(), nm, a, pcs.get(a)))
         for c in pcs[nm]:
-            env.prove("pseudotree.pseudo-child-lists-node-among-its-pseudo-parents", nm in pps.get(c, ()),
+            prove("pseudotree.pseudo-child-lists-node-among-its-pseudo-parents", nm in pps.get(c, ()),
                       detail=lambda: (info(), nm, c, pps.get(c)))
         tree_nb = set(children[nm]) | ({parent[nm]} if parent[nm] is not None else set())
         back_nb = set(pps[nm]) | set(pcs[nm])
-        env.prove("pseudotree.a-pair-is-a-tree-edge-or-a-back-edge-not-both",
+        prove("pseudotree.a-pair-is-a-tree-edge-or-a-back-edge-not-both",
                   not (tree_nb & back_nb) and not (set(pps[nm]) & set(pcs[nm])) and parent[nm] not in children[nm],
                   detail=lambda: (info(), nm, parent[nm], children[nm], pps[nm], pcs[nm]))
     # no cycles: parent pointers lead to a root in < n steps; depth by iteration (no recursion in the oracle)
@@ -533,7 +565,7 @@ def h_pseudotree(env):
         base = depth[cur] if cur is not None else -1
         for i, x in enumerate(reversed(path)):
             depth[x] = base + 1 + i
-    env.prove("pseudotree.parent-links-have-no-cycle", acyclic, detail=lambda: (info(), parent if not big else None))
+    prove("pseudotree.parent-links-have-no-cycle", acyclic, detail=lambda: (info(), parent if not big else None))
     if not acyclic:
         return
     # walking down the children links from the roots meets every node exactly once
@@ -546,7 +578,7 @@ def h_pseudotree(env):
         steps += 1
         seen[x] = seen.get(x, 0) + 1
         stack.extend(children[x])
-    env.prove("pseudotree.children-links-from-the-roots-reach-every-node-once",
+    prove("pseudotree.children-links-from-the-roots-reach-every-node-once",
               not stack and sorted(seen) == sorted(names) and all(v == 1 for v in seen.values()),
               detail=lambda: (info(), roots, seen if not big else None))
 
@@ -560,21 +592,21 @@ def h_pseudotree(env):
 
     for nm in names:
         for a in pps[nm]:
-            env.prove("pseudotree.back-edges-lead-to-an-ancestor", is_ancestor(a, nm), detail=lambda: (info(), nm, a, parent if not big else None))
+            prove("pseudotree.back-edges-lead-to-an-ancestor", is_ancestor(a, nm), detail=lambda: (info(), nm, a, parent if not big else None))
         linked = set(children[nm]) | set(pps[nm]) | set(pcs[nm]) | ({parent[nm]} if parent[nm] is not None else set())
         # a DFS forest *of the constraint graph*: its edges are edges of that graph
-        env.prove("pseudotree.every-link-joins-two-constraint-sharing-variables", linked <= nbrs_of[nm],
+        prove("pseudotree.every-link-joins-two-constraint-sharing-variables", linked <= nbrs_of[nm],
                   detail=lambda: (info(), nm, sorted(linked), sorted(nbrs_of[nm])))
         for o in nbrs_of[nm]:
             if o < nm:
                 continue
             up, down = (o, nm) if depth[o] < depth[nm] else (nm, o)
-            env.prove("pseudotree.constraint-sharing-pair-is-ancestor-and-descendant", is_ancestor(up, down),
+            prove("pseudotree.constraint-sharing-pair-is-ancestor-and-descendant", is_ancestor(up, down),
                       detail=lambda: (info(), nm, o, parent if not big else None))
-            env.prove("pseudotree.constraint-sharing-pair-directly-linked-by-tree-or-back-edge",
+            prove("pseudotree.constraint-sharing-pair-directly-linked-by-tree-or-back-edge",
                       (parent[down] == up and down in children[up]) or (up in pps[down] and down in pcs[up]),
                       detail=lambda: (info(), up, down, parent[down], children[up], pps[down], pcs[up]))
-        env.prove("pseudotree.node-neighbours-are-the-linked-nodes", set(byname[nm][0].neighbors) == linked,
+        prove("pseudotree.node-neighbours-are-the-linked-nodes", set(byname[nm][0].neighbors) == linked,
                   detail=lambda: (info(), nm, sorted(byname[nm][0].neighbors), sorted(linked)))
 
 
@@ -587,23 +619,37 @@ def shapes_c16(tier):
     s = [
         # every hypergraph with unary/binary/ternary scopes on <= 3 variables, every constraint/variable kind,
         # every way of handing the problem over, duplicate scopes, both creation orders
-        dict(n=1, enum="subsets", max_arity=1, vias=["dcop", "lists", "dcop-implicit"], var_orders="both", dup=True, **_KINDS),
-        dict(n=2, enum="subsets", max_arity=2, vias=["dcop", "lists", "dcop-implicit"], var_orders="both", dup=True, **_KINDS),
-        dict(n=3, enum="subsets", max_arity=3, vias=["dcop", "lists", "dcop-implicit"], var_orders="both", dup=True,
-             vkinds=["mixed"], ckinds=["matrix", "func"]),
-        # every hypergraph on 4 variables (14 candidate scopes, 16384 scope sets)
-        dict(n=4, enum="subsets", max_arity=3, vias=["dcop"], vkinds=["plain"], ckinds=["matrix"]),
-        dict(n=4, enum="upto", k=3, max_arity=4, vias=["lists", "dcop-implicit"], dup=True, reverse_constraints=True,
-             vkinds=["mixed"], ckinds=["func"]),
+        dict(n=1, enum="subsets", max_arity=1, vias=["dcop", "lists", "dcop-implicit"], dup=True, **_KINDS),
+        dict(n=2, enum="subsets", max_arity=2, vias=["dcop", "lists", "dcop-implicit"], dup=True, **_KINDS),
+        dict(n=3, enum="subsets", max_arity=3, vias=["dcop", "lists", "dcop-implicit"], dup=True, vkinds=["mixed"]),
+        # 4 variables: every unary/binary hypergraph, every set of <= 3 scopes of arity <= 3, <= 2 scopes of arity <= 4
+        # (all 16384 hypergraphs with arity <= 3 are in the thorough tier)
+        dict(n=4, enum="subsets", max_arity=2, vias=["dcop"]),
+        dict(n=4, enum="upto", k=3, max_arity=3, vias=["dcop"], var_orders="both"),
+        dict(n=4, enum="upto", k=2, max_arity=4, vias=["lists", "dcop-implicit"], dup=True, vkinds=["mixed"], ckinds=["func"]),
         # named n-ary / disconnected families and seeded random hypergraphs up to 8 variables
         dict(n=9, enum="family", family="nary-overlap", vias=["dcop", "lists"]),
         dict(n=8, enum="family", family="nary-disconnected", vias=["dcop", "lists", "dcop-implicit"], var_orders="both"),
-        dict(n=6, enum="random", samples=150, seed=1, max_arity=4, vias=["dcop", "lists"]),
-        dict(n=8, enum="random", samples=150, seed=2, max_arity=5, vias=["dcop", "lists"], ckinds=["func"]),
+        dict(n=6, enum="random", samples=80, seed=1, max_arity=4, vias=["dcop", "lists"]),
+        dict(n=8, enum="random", samples=80, seed=2, max_arity=5, vias=["dcop", "lists"], ckinds=["func"]),
     ]
     if tier == "thorough":
         s += [
+            dict(n=1, enum="subsets", max_arity=1, vias=["dcop", "lists", "dcop-implicit"], var_orders="both", dup=True, **_KINDS),
+            dict(n=2, enum="subsets", max_arity=2, vias=["dcop", "lists", "dcop-implicit"], var_orders="both", dup=True, **_KINDS),
+            dict(n=3, enum="subsets", max_arity=3, vias=["dcop", "lists", "dcop-implicit"], dup=True,
+                 vkinds=["mixed"], ckinds=["matrix", "func"]),
+            dict(n=4, enum="subsets", max_arity=2, vias=["dcop"]),
+            dict(n=4, enum="upto", k=4, max_arity=3, vias=["dcop"], var_orders="both"),
+            dict(n=4, enum="upto", k=3, max_arity=4, vias=["lists", "dcop-implicit"], dup=True,
+                 vkinds=["mixed"], ckinds=["func"]),
+            dict(n=9, enum="family", family="nary-overlap", vias=["dcop", "lists"]),
+            dict(n=8, enum="family", family="nary-disconnected", vias=["dcop", "lists", "dcop-implicit"], var_orders="both"),
+            dict(n=6, enum="random", samples=150, seed=1, max_arity=4, vias=["dcop", "lists"]),
+            dict(n=8, enum="random", samples=150, seed=2, max_arity=5, vias=["dcop", "lists"], ckinds=["func"]),
+            dict(n=4, enum="subsets", max_arity=3, vias=["dcop"], vkinds=["plain"], ckinds=["matrix"]),   # all 16384
             dict(n=4, enum="subsets", max_arity=3, vias=["lists"], vkinds=["mixed"], ckinds=["func"]),
+            dict(n=4, enum="upto", k=3, max_arity=4, vias=["lists", "dcop-implicit"], dup=True, reverse_constraints=True, var_orders="both"),
             dict(n=5, enum="subsets", max_arity=2, vias=["dcop"]),                      # 2^15 graphs with unary+binary scopes
             dict(n=5, enum="upto", k=4, max_arity=3, vias=["dcop", "lists"]),            # 15276 scope sets x 2
             dict(n=6, enum="upto", k=3, max_arity=3, vias=["dcop"]),                     # 11522 scope sets
@@ -614,32 +660,23 @@ def shapes_c16(tier):
     return s
 
 
-def shapes_factor(tier):
-    """same families as the hyper-graph; in the quick tier the 16384 hypergraphs on 4 variables are replaced by
-    all unary/binary ones plus every set of <= 4 scopes (the full set is in the thorough tier)"""
-    full4 = dict(n=4, enum="subsets", max_arity=3, vias=["dcop"], vkinds=["plain"], ckinds=["matrix"])
-    s = [x for x in shapes_c16(tier) if x != full4]
-    if tier == "thorough":
-        s.append(full4)
-    else:
-        s += [dict(n=4, enum="subsets", max_arity=2, vias=["dcop"]), dict(n=4, enum="upto", k=4, max_arity=3, vias=["dcop"])]
-    return s
-
-
 def shapes_ordered(tier):
     s = [
         # the chain depends on names and creation order: every creation order of <= 5 variables
         dict(n=1, enum="subsets", max_arity=1, vias=["dcop", "lists", "dcop-implicit"]),
         dict(n=2, enum="subsets", max_arity=2, vias=["dcop", "lists", "dcop-implicit"], var_orders="all"),
-        dict(n=3, enum="subsets", max_arity=2, vias=["dcop", "lists", "dcop-implicit"], var_orders="all"),
-        dict(n=4, enum="upto", k=2, max_arity=3, vias=["dcop", "lists"], var_orders="all"),
+        dict(n=3, enum="subsets", max_arity=1, vias=["dcop", "lists", "dcop-implicit"], var_orders="all"),
+        dict(n=3, enum="subsets", edges_only=True, vias=["dcop-implicit"], var_orders="all"),
+        dict(n=4, enum="upto", k=1, max_arity=3, vias=["dcop", "lists"], var_orders="all"),
         dict(n=5, enum="family", family="ring", vias=["dcop", "lists", "dcop-implicit"], var_orders="all"),
-        dict(n=8, enum="random", samples=60, seed=5, max_arity=4, vias=["dcop", "lists", "dcop-implicit"], var_orders="both"),
+        dict(n=8, enum="random", samples=20, seed=5, max_arity=4, vias=["dcop", "lists", "dcop-implicit"], var_orders="both"),
         dict(n=30, enum="family", family="bintree", vias=["dcop", "lists"], var_orders="both"),
     ]
     if tier == "thorough":
         s += [
             dict(n=4, enum="subsets", max_arity=3, vias=["dcop"]),
+            dict(n=3, enum="subsets", max_arity=2, vias=["dcop", "lists", "dcop-implicit"], var_orders="all"),
+            dict(n=4, enum="upto", k=2, max_arity=3, vias=["dcop", "lists"], var_orders="all"),
             dict(n=6, enum="family", family="star", vias=["dcop", "lists"], var_orders="all"),
             dict(n=8, enum="random", samples=2000, seed=6, max_arity=4, vias=["dcop", "lists", "dcop-implicit"], var_orders="both"),
         ]
@@ -656,7 +693,7 @@ def shapes_c17(tier):
         # n-ary scopes (unary, binary, ternary, 4-ary), duplicates, both creation orders
         dict(n=3, enum="subsets", max_arity=3, vias=["dcop", "lists", "dcop-implicit"], var_orders="both", dup=True,
              ckinds=["matrix", "func"], **_RL),
-        dict(n=4, enum="upto", k=3, max_arity=4, vias=["dcop", "lists"], dup=True, reverse_constraints=True, **_RL),
+        dict(n=4, enum="upto", k=3, max_arity=4, vias=["dcop", "lists"], dup=True, **_RL),
         dict(n=5, enum="upto", k=2, max_arity=3, vias=["dcop"], var_orders="both", **_RL),
         dict(n=9, enum="family", family="nary-overlap", vias=["dcop", "lists"], var_orders="both", **_RL),
         dict(n=8, enum="family", family="nary-disconnected", vias=["dcop", "lists", "dcop-implicit"], var_orders="both", **_RL),
@@ -678,6 +715,7 @@ def shapes_c17(tier):
             dict(n=5, enum="subsets", edges_only=True, vias=["lists"], var_orders="both", **_RL),
             dict(n=4, enum="subsets", max_arity=3, vias=["dcop"], **_RL),                 # all 16384 hypergraphs on 4 nodes
             dict(n=5, enum="upto", k=3, max_arity=3, vias=["dcop", "lists"], **_RL),
+            dict(n=4, enum="upto", k=3, max_arity=4, vias=["dcop", "lists"], dup=True, reverse_constraints=True, **_RL),
             dict(n=6, enum="upto", k=2, max_arity=4, vias=["dcop"], dup=True, **_RL),
             dict(n=7, enum="random", samples=4000, seed=9, max_arity=4, vias=["dcop", "lists"], **_RL),
             dict(n=10, enum="random", samples=3000, seed=10, max_arity=5, vias=["dcop", "lists"], **_RL),
@@ -692,6 +730,48 @@ def shapes_c17(tier):
     return s
 
 
+def _paths(p):
+    """number of enumerated cases of a shape (to pack the small ones into one job)"""
+    n = p["n"]
+    e = p["enum"]
+    if e == "subsets":
+        c = 2 ** len(_edges(n) if p.get("edges_only") else all_scopes(n, p.get("max_arity", 2)))
+    elif e == "upto":
+        m = len(all_scopes(n, p.get("max_arity", 3)))
+        c = sum(math.comb(m, k) for k in range(p["k"] + 1))
+    elif e == "random":
+        c = p["samples"]
+    else:
+        c = 1
+    c *= 2 if p.get("dup") else 1
+    c *= 2 if p.get("reverse_constraints") else 1
+    c *= math.factorial(n) if p.get("var_orders") == "all" else (2 if p.get("var_orders") == "both" else 1)
+    return c * len(p.get("vias", [1, 2])) * len(p.get("vkinds", [1])) * len(p.get("ckinds", [1]))
+
+
+def _packed(fn, limit=700, keep=lambda p: False):
+    def shapes(tier):
+        small, out, tot = [], [], 0
+        for p in fn(tier):
+            if keep(p) or _paths(p) > limit:
+                out.append(p)
+                continue
+            if small and tot + _paths(p) > 2 * limit:
+                out.append(dict(multi=small))
+                small, tot = [], 0
+            small.append(p)
+            tot += _paths(p)
+        if small:
+            out.append(dict(multi=small))
+        return out
+    return shapes
+
+
+def _own_job(p):
+    # a failing job stops at its first failure: the long chains (a RecursionError each) must not hide the rest
+    return p.get("family") == "chain" and p["n"] >= 400
+
+
 _BUDGET = dict(quick=dict(max_paths=60000, timeout_s=200.0), thorough=dict(max_paths=400000, timeout_s=1500.0))
 _NODE_INIT = "pydcop.computations_graph.objects:ComputationNode.__init__"
 
@@ -702,7 +782,7 @@ Contract(
      "pydcop.computations_graph.constraints_hypergraph:ConstraintLink.__init__",
      _NODE_INIT, "pydcop.computations_graph.objects:ComputationGraph.links",
      "pydcop.dcop.relations:find_dependent_relations"],
-    h_hypergraph, shapes_c16, mode="E", must_cover=["post"], budget=_BUDGET,
+    _bounded(h_hypergraph), _packed(shapes_c16), mode="E", must_cover=["post"], budget=_BUDGET,
     assumptions=["graphs: variables are decision variables (no ExternalVariable in a scope); no zero-ary constraint; "
                  "constraint names differ from variable names"],
     desc="one node per variable; node.constraints = constraints containing it; neighbours = shares-a-constraint, symmetric; links = its constraints' scopes",
@@ -716,7 +796,7 @@ Contract(
      "pydcop.computations_graph.factor_graph:FactorGraphLink.__init__",
      "pydcop.computations_graph.factor_graph:ComputationsFactorGraph.__init__",
      _NODE_INIT, "pydcop.dcop.relations:find_dependent_relations"],
-    h_factor_graph, shapes_factor, mode="E", must_cover=["post"], budget=_BUDGET,
+    _bounded(h_factor_graph), _packed(shapes_c16), mode="E", must_cover=["post"], budget=_BUDGET,
     desc="bipartite; one node per variable and per constraint; x - f linked iff x in scope(f), seen from both ends and in graph.links",
 )
 
@@ -727,7 +807,7 @@ Contract(
      "pydcop.computations_graph.ordered_graph:OrderLink.__init__",
      "pydcop.computations_graph.ordered_graph:VariableComputationNode.get_next",
      "pydcop.computations_graph.ordered_graph:VariableComputationNode.get_previous"],
-    h_ordered_graph, shapes_ordered, mode="E", must_cover=["post"], budget=_BUDGET,
+    _bounded(h_ordered_graph), _packed(shapes_ordered), mode="E", must_cover=["post"], budget=_BUDGET,
     desc="one node per variable; next/previous links chain all variables in lexical order of their names, mutually consistent",
 )
 
@@ -742,7 +822,7 @@ Contract(
      "pydcop.computations_graph.pseudotree:ComputationPseudoTree.__init__",
      "pydcop.computations_graph.pseudotree:PseudoTreeNode.__init__",
      "pydcop.computations_graph.pseudotree:get_dfs_relations"],
-    h_pseudotree, shapes_c17, mode="E", must_cover=["post"], budget=_BUDGET,
+    _bounded(h_pseudotree), _packed(shapes_c17, keep=_own_job), mode="E", must_cover=["post"], budget=_BUDGET,
     assumptions=["pseudotree: the builder is called with CPython's default recursion budget (1000 frames) available to it"],
     desc="valid DFS forest: one node per variable, consistent parent/children/pseudo links, acyclic, every constraint-sharing pair "
          "ancestor/descendant and directly linked, node constraints exact; never raises (long chains included)",
